@@ -56,7 +56,7 @@ func famHints(sc *scn.Scenario, em func(vt.Ev)) {
 		em(vt.Ev{"ev": "skip", "why": "parse", "q": q})
 		return
 	}
-	runtime.GOMAXPROCS(sc.CfgInt("procs", 4))
+	runtime.GOMAXPROCS(sc.Procs())
 	em(header(sc, expr))
 	cl := newClassifier()
 	strClass := map[string]int{}
